@@ -439,8 +439,9 @@ static inline void v_poison_regs(void)
 }
 /* the watchdog counts user CPU time of the process (ITIMER_VIRTUAL), not wall-clock time: a loaded machine cannot make it fire */
 static inline void v_watchdog(int secs) { struct itimerval it; memset(&it, 0, sizeof it); it.it_value.tv_sec = secs; setitimer(ITIMER_VIRTUAL, &it, 0); }
-#define V_TRY(secs) (v_watchdog(secs), v_armed = 1, sigsetjmp(v_jmp, 1) == 0 && (v_poison_regs(), 1))
-#define V_END do { v_armed = 0; v_watchdog(0); if (v_abi_bad) { v_abi_bad = 0; v_viol("abi:callee-saved-register-clobbered", "a kernel returned with rbx, rbp or r12-r15 changed"); } } while (0)
+static void (*v_hook_try)(void); static void (*v_hook_end)(void); static void (*v_hook_stats)(void);   /* set by cpusim.h: shadow-stack reset / interposer verdict */
+#define V_TRY(secs) (v_watchdog(secs), v_armed = 1, sigsetjmp(v_jmp, 1) == 0 && ((v_hook_try ? v_hook_try() : (void) 0), v_poison_regs(), 1))
+#define V_END do { v_armed = 0; v_watchdog(0); if (v_hook_end) v_hook_end(); if (v_abi_bad) { v_abi_bad = 0; v_viol("abi:callee-saved-register-clobbered", "a kernel returned with rbx, rbp or r12-r15 changed"); } } while (0)
 
 static double v_now(void) { struct timespec t; clock_gettime(CLOCK_MONOTONIC, &t); return t.tv_sec + t.tv_nsec * 1e-9; }
 
@@ -461,6 +462,7 @@ static int v_finish(void)
 	v_stat("distinct_nontrivial", v_fp_new);
 	if (v_fp_full) v_stat("fp_table_crowded", v_fp_full);
 	v_stat("violations_raw", v_nviol);
+	if (v_hook_stats) v_hook_stats();
 	v_done();
 	return 0;
 }
